@@ -148,6 +148,9 @@ func (r *Run) Violation(signature, what string, witness any) bool {
 	return true
 }
 
+// Violation0 is Violation without the return value (callback form).
+func (r *Run) Violation0(signature, what string, witness any) { r.Violation(signature, what, witness) }
+
 func (r *Run) Violations() int {
 	r.mu.Lock()
 	defer r.mu.Unlock()
